@@ -13,12 +13,12 @@ def isIdent (c : Char) : Bool := c.isAlphanum || c == '_'
 /-- does `'$' ++ key` match at the head of `s` with no identifier character following? -/
 def matchAt (key : List Char) (s : List Char) : Bool :=
   match s with
-  | '$' :: rest =>
-    key.isPrefixOf rest &&
+  | [] => false
+  | c :: rest =>
+    c == '$' && key.isPrefixOf rest &&
       (match rest.drop key.length with
        | [] => true
-       | c :: _ => !isIdent c)
-  | _ => false
+       | d :: _ => !isIdent d)
 
 /-- leftmost, non-overlapping matches, scanning from the left; `skip` = characters of the current
 match still to be consumed -/
